@@ -1,6 +1,6 @@
 import OrbitModel.Proofs.PeersDiff
 import OrbitModel.Proofs.Uvarint
-import OrbitModel.Proofs.GenEq
+import OrbitModel.Proofs.GenEqFrame
 /-!
 # C20 — transport adapters deliver each payload once, intact, attributed to its sender
 -/
